@@ -346,7 +346,8 @@ func (e *FnExec) store(st *State, loc *Term, t types.Type, v *Term) {
 func (e *FnExec) checkLoopFrames(st *State, class string, loc *Term, pos token.Pos) {
 	for _, li := range e.loops {
 		if li.framed && li.blocks[e.curBlock] {
-			e.assert(st, "loop-frame", inItems(loc, class, li.items), pos, fmt.Sprintf("store stays inside the frame declared for loop %d", li.ordinal), fmt.Sprintf("loop%d", li.ordinal))
+			// objects allocated after the loop was entered are always inside the frame
+			e.assert(st, "loop-frame", Or(inItems(loc, class, li.items), Le(li.before.ctr, Root(loc))), pos, fmt.Sprintf("store stays inside the frame declared for loop %d", li.ordinal), fmt.Sprintf("loop%d", li.ordinal))
 		}
 	}
 }
@@ -1018,13 +1019,20 @@ func (e *FnExec) enterLoop(li *loopInfo, in *State) *State {
 					}
 				}
 				if !has {
-					continue // stores to this class inside the loop fail their loop-frame obligation
+					// only objects allocated inside the loop may change in this class
+					old := e.getMem(in, c, s)
+					nw := e.freshMem(st, "lh_"+c, s)
+					l := BVar("l", "Loc")
+					es := arrayElemSort(s)
+					e.addFact(st, Forall([]*Term{l}, Imp(Lt(App("root", "Int", l), in.ctr), Eq(App("select", es, nw, l), App("select", es, old, l)))))
+					e.setMem(st, c, s, nw)
+					continue
 				}
 				old := e.getMem(in, c, s)
 				nw := e.freshMem(st, "lh_"+c, s)
 				l := BVar("l", "Loc")
 				es := arrayElemSort(s)
-				e.addFact(st, Forall([]*Term{l}, Imp(Not(inItems(l, c, li.items)), Eq(App("select", es, nw, l), App("select", es, old, l)))))
+				e.addFact(st, Forall([]*Term{l}, Imp(And(Not(inItems(l, c, li.items)), Lt(App("root", "Int", l), in.ctr)), Eq(App("select", es, nw, l), App("select", es, old, l)))))
 				e.setMem(st, c, s, nw)
 				continue
 			}
